@@ -2,7 +2,7 @@
    Only statements, each closed by `exact <lemma>`, its assumptions printed, and Examples
    showing that the hypotheses are met by non-trivial values. *)
 From Pybtex Require Import Base.Prelude Base.PyChar Base.PyStr Model.RtTypes Model.Backends
-  Proofs.Backends Proofs.BackendsMd Proofs.BackendsHtml Proofs.BackendsLatex Proofs.BackendsDepth Proofs.BackendsTotal.
+  Proofs.Backends Proofs.BackendsMd Proofs.BackendsHtml Proofs.BackendsLatex Proofs.BackendsDepth Proofs.BackendsTotal Proofs.BackendsHtmlWf.
 Local Open Scope N_scope.
 
 (* ---- plain text: the output is the text with symbols replaced by the back end's plain
@@ -41,6 +41,14 @@ Theorem html_chardata : forall enc T, html_symbols_ok T = true ->
   forall t out, names_ok t = true -> render enc T BHtml t = Ok out -> chardata out = Some (hplain T t).
 Proof. exact html_chardata_holds. Qed.
 Print Assumptions html_chardata.
+
+(* the HTML output is well-formed: every element opened is closed, innermost first, with the same
+   name; character data contains no bare < > or &; entities are terminated.  wf_names: tag names
+   are alphanumeric names, URLs contain no angle bracket (the code inserts both unescaped). *)
+Theorem html_wellformed : forall enc T, html_symbols_wf T = true ->
+  forall t out, wf_names t = true -> render enc T BHtml t = Ok out -> wellformed out.
+Proof. exact html_wellformed_holds. Qed.
+Print Assumptions html_wellformed.
 
 (* ---- LaTeX: if the encoder keeps the brace skeleton of every string (latexcodec: measured and
    checked per run), every string and URL of the tree is brace-balanced and the tables are sane,
@@ -137,7 +145,7 @@ Definition ex_tree : rt :=
 Example md_table_example : md_table_shape markdown_escapable = true /\ same_set markdown_escapable markdown_escapable = true /\
   format_str (enc_tab ex_enc) ex_latex BMarkdown (lit "a*b\c<") = lit "a\*b\\c&lt;".
 Proof. vm_compute. auto. Qed.
-Example html_example : html_symbols_ok ex_html = true /\ names_ok ex_tree = true /\
+Example html_example : html_symbols_ok ex_html = true /\ html_symbols_wf ex_html = true /\ names_ok ex_tree = true /\ wf_names ex_tree = true /\
   render (enc_tab ex_enc) ex_html BHtml ex_tree =
     Ok (lit "a&lt;b &amp; {c}~<em>x_<span class=""bibtex-protected"">Y</span></em>&nbsp;<a href=""http://x.org/a_b"" target=""_blank"">z</a>").
 Proof. vm_compute. auto. Qed.
@@ -159,4 +167,7 @@ Example depth_roundtrip_example : balanced (lit "a{b}{c}{}{{}}d{e{f}}{{g}h}") /\
     Ok (RText [RStr (lit "a"); RProt [RStr (lit "bc")]; RStr (lit "d");
                RProt [RStr (lit "e"); RProt [RStr (lit "fg")]; RStr (lit "h")]]) /\
   (do t <- parse_latex (lit "a{b}{c}{}{{}}d{e{f}}{{g}h}"); render (fun s => s) ex_latex BLatex t) = Ok (lit "a{bc}d{e{fg}h}").
+Proof. vm_compute. auto. Qed.
+Example html_not_wellformed_example : wellformed_b (lit "<em>a</b>") = false /\ wellformed_b (lit "a < b") = false /\
+  wellformed_b (lit "<a href=""u"">x &amp; y</a>") = true.
 Proof. vm_compute. auto. Qed.
